@@ -8,7 +8,6 @@ import (
 	"encoding/binary"
 	"encoding/json"
 	"fmt"
-	"math/big"
 	"os"
 	"path/filepath"
 	"reflect"
@@ -23,7 +22,7 @@ import (
 )
 
 const header = `From Coq Require Import NArith List String.
-From CSS Require Import Lib.Base Lib.Cases Lib.SymBits Lib.RegTypes Lib.RegOblig Model.Registers Model.RegistersCases gen.FromSource_registers.
+From CSS Require Import Lib.Base Lib.Cases Lib.SymBits Lib.RegTypes Lib.RegOblig Lib.RegFresh Model.Registers Model.RegisterHeap Model.RegistersCases gen.FromSource_registers.
 Import ListNotations.
 Open Scope N_scope.
 Open Scope string_scope.
@@ -183,6 +182,14 @@ func call(name string, raw uint64) (val uint64, ok bool, panicked bool) {
 	return val, ok, p
 }
 
+// fieldNum: FieldValueToNumber for well-formed values; the real function panics on a short slice
+func fieldNum(b []byte) uint64 {
+	if len(b) < 8 {
+		b = append(append([]byte(nil), b...), make([]byte, 8)...)
+	}
+	return registers.FieldValueToNumber(b[:8])
+}
+
 func bits(raw uint64, lo, w int) uint64 {
 	if w >= 64 {
 		return raw >> uint(lo)
@@ -238,7 +245,7 @@ func patterns(c *gal.Ctx, w int, nrand int) []uint64 {
 }
 
 func main() {
-	c := gal.New("C04", header, 2500)
+	c := gal.New("C04", header, 1100)
 	root := os.Getenv("VERIF_ROOT")
 	if root == "" {
 		root = ".."
@@ -268,9 +275,101 @@ func main() {
 		}
 	}
 
-	// ---- accessors ----
+	// ---- TXT configuration space readers ----
+	nimg := c.Scale(30, 200)
+	var prevRegs registers.Registers
+	var prevImg []byte
+	readOne := func(i int) {
+		// lengths: the minimal image holding every register (0x420: the public key ends there),
+		// one byte more, random lengths in between, and the usual 4 KiB
+		ilen := 0x1000
+		switch i % 5 {
+		case 0:
+			ilen = 0x420
+		case 1:
+			ilen = 0x421
+		case 2:
+			ilen = 0x420 + c.Rng.Intn(0x1000-0x420)
+		}
+		img := make([]byte, ilen)
+		switch i % 3 {
+		case 0:
+			c.Rng.Read(img)
+		case 1: // sparse
+			for k := 0; k < 40; k++ {
+				img[c.Rng.Intn(len(img))] = byte(c.Rng.Intn(256))
+			}
+		default: // only register bytes set
+			for _, off := range []int{0, 8, 0x30, 0xa0, 0x100, 0x110, 0x200, 0x270, 0x278, 0x290, 0x300, 0x308, 0x328, 0x330, 0x378, 0x400, 0x408, 0x410, 0x418} {
+				c.Rng.Read(img[off : off+8])
+			}
+		}
+		var regs registers.Registers
+		var rerr error
+		if p, msg := gal.Recover(func() { regs, rerr = registers.ReadTXTRegisters(img) }); p {
+			c.OracleFail(-1, fmt.Sprintf("ReadTXTRegisters panics on a %#x-byte image (all registers lie below 0x420): %s", ilen, msg), "registers.ReadTXTRegisters", map[string]interface{}{"image_length": ilen})
+			return
+		}
+		if rerr != nil {
+			c.OracleFail(-1, fmt.Sprintf("ReadTXTRegisters fails on a %#x-byte image although every register lies below 0x420: %s", ilen, rerr.Error()), "registers.ReadTXTRegisters", map[string]interface{}{"image_length": ilen})
+			return
+		}
+		// The result has to be a value of its own: the same image is read a second time, a consumer
+		// empties that second collection (whole capacity) and reuses the image buffer; the first
+		// collection is looked at only after that, and once more after the NEXT image was read.
+		orig := append([]byte(nil), img...)
+		var regs2 registers.Registers
+		gal.Recover(func() { regs2, _ = registers.ReadTXTRegisters(img) })
+		regs2 = regs2[:cap(regs2)]
+		for k := range regs2 {
+			regs2[k] = nil
+		}
+		for k := range img {
+			img[k] ^= 0xFF
+		}
+		img = orig
+		if prevRegs != nil {
+			if _, pbad := checkRegs(prevRegs, prevImg); pbad != "" {
+				c.OracleFail(-1, "a collection returned by an earlier ReadTXTRegisters call changed after later calls: "+pbad, "registers.ReadTXTRegisters", map[string]interface{}{"sequence": "ReadTXTRegisters(image A); ReadTXTRegisters(image A) again and clear that result; overwrite the buffer of A; ReadTXTRegisters(image B); inspect the first result", "image_A_nonzero_bytes": sparse(prevImg)})
+				prevRegs = nil
+			} else {
+				c.OracleOK()
+			}
+		}
+		obs, bad := checkRegs(regs, img)
+		prevRegs, prevImg = regs, img
+		// sparse literal of the image
+		var ov []string
+		for k, b := range img {
+			if b != 0 {
+				ov = append(ov, fmt.Sprintf("(%d, %d)", k, b))
+			}
+		}
+		idx := c.Add("read_txt", fmt.Sprintf("CRead %d %s %s", len(img), gal.List(ov), gal.List(obs)), map[string]interface{}{"image": "random 4KiB, class " + fmt.Sprint(i%3), "seed_index": i}, true)
+		// decoders agree
+		if bad == "" {
+			bad = decodersDisagree(img, regs)
+		}
+		if bad != "" {
+			c.OracleFail(idx, bad, "registers.ReadTXTRegisters / tools.ParseTXTRegs", map[string]interface{}{"image_nonzero_bytes": ov})
+		} else {
+			c.OracleOK()
+		}
+	}
+
+	// ---- accessors (sessions, sessions.go, in between: heavy cases, spread over the shards) ----
 	undriven := 0
-	for _, a := range sp.Accessors {
+	nextImg, nextBatch := 0, 0
+	for ai, a := range sp.Accessors {
+		// heavy cases (config-space images, sessions) are spread evenly over the light accessor cases
+		for nextImg*len(sp.Accessors) < (ai+1)*nimg {
+			readOne(nextImg)
+			nextImg++
+		}
+		for nextBatch*len(sp.Accessors) < (ai+1)*sessionBatches {
+			sessions(c, sp, nextBatch)
+			nextBatch++
+		}
 		ps := patterns(c, a.Width, c.Scale(6, 200))
 		ps = append(extra[a.Name], ps...)
 		inCoq := c.Scale(40, 400)
@@ -325,7 +424,7 @@ func main() {
 			}
 			var lits []string
 			for _, f := range fs {
-				lits = append(lits, fmt.Sprintf("(%s, %d, %d, %s)", gal.Str2(f.Name), f.BitOffset, f.BitSize, gal.U(registers.FieldValueToNumber(f.Value))))
+				lits = append(lits, fmt.Sprintf("(%s, %d, %d, %s)", gal.Str2(f.Name), f.BitOffset, f.BitSize, gal.U(fieldNum(f.Value))))
 			}
 			idx := -1
 			if i%2 == 0 || i < 8 {
@@ -344,8 +443,12 @@ func main() {
 					bad = fmt.Sprintf("field %q is empty", f.Name)
 					break
 				}
-				if registers.FieldValueToNumber(f.Value) != bits(r, int(f.BitOffset), int(f.BitSize)) {
-					bad = fmt.Sprintf("field %q value %#x is not bits [%d,%d) of %#x", f.Name, registers.FieldValueToNumber(f.Value), f.BitOffset, int(f.BitOffset)+int(f.BitSize), r)
+				if len(f.Value) != 8 {
+					bad = fmt.Sprintf("field %q has a value of %d bytes (expected the 8 little-endian bytes of bits [%d,%d) of %#x)", f.Name, len(f.Value), f.BitOffset, int(f.BitOffset)+int(f.BitSize), r)
+					break
+				}
+				if fieldNum(f.Value) != bits(r, int(f.BitOffset), int(f.BitSize)) {
+					bad = fmt.Sprintf("field %q value %#x is not bits [%d,%d) of %#x", f.Name, fieldNum(f.Value), f.BitOffset, int(f.BitOffset)+int(f.BitSize), r)
 					break
 				}
 				next += int(f.BitSize)
@@ -388,104 +491,16 @@ func main() {
 		}
 	}
 
-	// ---- TXT configuration space readers ----
-	nimg := c.Scale(30, 200)
-	for i := 0; i < nimg; i++ {
-		// lengths: the minimal image holding every register (0x420: the public key ends there),
-		// one byte more, random lengths in between, and the usual 4 KiB
-		ilen := 0x1000
-		switch i % 5 {
-		case 0:
-			ilen = 0x420
-		case 1:
-			ilen = 0x421
-		case 2:
-			ilen = 0x420 + c.Rng.Intn(0x1000-0x420)
-		}
-		img := make([]byte, ilen)
-		switch i % 3 {
-		case 0:
-			c.Rng.Read(img)
-		case 1: // sparse
-			for k := 0; k < 40; k++ {
-				img[c.Rng.Intn(len(img))] = byte(c.Rng.Intn(256))
-			}
-		default: // only register bytes set
-			for _, off := range []int{0, 8, 0x30, 0xa0, 0x100, 0x110, 0x200, 0x270, 0x278, 0x290, 0x300, 0x308, 0x328, 0x330, 0x378, 0x400, 0x408, 0x410, 0x418} {
-				c.Rng.Read(img[off : off+8])
-			}
-		}
-		var regs registers.Registers
-		var rerr error
-		if p, msg := gal.Recover(func() { regs, rerr = registers.ReadTXTRegisters(img) }); p {
-			c.OracleFail(-1, fmt.Sprintf("ReadTXTRegisters panics on a %#x-byte image (all registers lie below 0x420): %s", ilen, msg), "registers.ReadTXTRegisters", map[string]interface{}{"image_length": ilen})
-			continue
-		}
-		if rerr != nil {
-			c.OracleFail(-1, fmt.Sprintf("ReadTXTRegisters fails on a %#x-byte image although every register lies below 0x420: %s", ilen, rerr.Error()), "registers.ReadTXTRegisters", map[string]interface{}{"image_length": ilen})
-			continue
-		}
-		var obs []string
-		bad := ""
-		for _, r := range regs {
-			off := int(r.Address() - registers.TxtPublicSpace)
-			var v *big.Int
-			var n int
-			switch x := r.(type) {
-			case registers.RawRegister8:
-				v, n = new(big.Int).SetUint64(uint64(x.Raw())), 1
-			case registers.RawRegister16:
-				v, n = new(big.Int).SetUint64(uint64(x.Raw())), 2
-			case registers.RawRegister32:
-				v, n = new(big.Int).SetUint64(uint64(x.Raw())), 4
-			case registers.RawRegister64:
-				v, n = new(big.Int).SetUint64(x.Raw()), 8
-			case registers.RawRegister:
-				b := x.Raw()
-				rev := make([]byte, len(b))
-				for k := range b {
-					rev[len(b)-1-k] = b[k]
-				}
-				v, n = new(big.Int).SetBytes(rev), len(b)
-			default:
-				bad = "register " + string(r.ID()) + " has no raw accessor"
-			}
-			if v == nil {
-				continue
-			}
-			if k := reflect.TypeOf(r).Kind(); k >= reflect.Uint8 && k <= reflect.Uint64 {
-				n = int(reflect.TypeOf(r).Size()) // e.g. ACM_STATUS is a uint32 that offers a 64-bit raw accessor
-			}
-			obs = append(obs, fmt.Sprintf("(%s, %s)", gal.Str2(string(r.ID())), gal.Big(v)))
-			// oracle: little-endian value stored at the register's offset
-			rev := make([]byte, n)
-			for k := 0; k < n; k++ {
-				rev[n-1-k] = img[off+k]
-			}
-			if new(big.Int).SetBytes(rev).Cmp(v) != 0 && bad == "" {
-				bad = fmt.Sprintf("register %s read as %#x, image holds %#x (little endian) at offset %#x", r.ID(), v, new(big.Int).SetBytes(rev), off)
-			}
-		}
-		// sparse literal of the image
-		var ov []string
-		for k, b := range img {
-			if b != 0 {
-				ov = append(ov, fmt.Sprintf("(%d, %d)", k, b))
-			}
-		}
-		idx := c.Add("read_txt", fmt.Sprintf("CRead %d %s %s", len(img), gal.List(ov), gal.List(obs)), map[string]interface{}{"image": "random 4KiB, class " + fmt.Sprint(i%3), "seed_index": i}, true)
-		// decoders agree
-		if bad == "" {
-			bad = decodersDisagree(img, regs)
-		}
-		if bad != "" {
-			c.OracleFail(idx, bad, "registers.ReadTXTRegisters / tools.ParseTXTRegs", map[string]interface{}{"image_nonzero_bytes": ov})
-		} else {
-			c.OracleOK()
-		}
+	for ; nextImg < nimg; nextImg++ {
+		readOne(nextImg)
+	}
+	for ; nextBatch < sessionBatches; nextBatch++ {
+		sessions(c, sp, nextBatch)
 	}
 
-	c.Finish("every accessor of spec/registers.json on 0, all-ones, alternating, every single-bit and every all-ones-minus-one-bit pattern plus random and two-bit values; Fields() of every integer register type on the same patterns; ReadTXTRegisters/ParseTXTRegs on random, sparse and register-only 4 KiB images; non-trivial = raw value <> 0; distinct = distinct Gallina literal")
+	flushSessionFailures(c)
+
+	c.Finish("every accessor of spec/registers.json on 0, all-ones, alternating, every single-bit and every all-ones-minus-one-bit pattern plus random and two-bit values; Fields() of every integer register type on the same patterns; ReadTXTRegisters/ParseTXTRegs on random, sparse and register-only 4 KiB images (result inspected after a second read of the same image was emptied, the image buffer overwritten and the next image read); sessions of 3-8 Fields() calls (all register types and TXT.PUBLIC.KEY, raw values from a small per-session palette so that registers, raw values and field values recur) interleaved with writes (invert, reverse, random, 0xFF, +1) over the whole capacity of the byte slices handed out and reuse of the []Field; non-trivial = raw value <> 0; distinct = distinct Gallina literal")
 }
 
 func describe(a accSpec) string {
